@@ -338,7 +338,7 @@ fn group_strategy(tier: Tier) -> BoxedStrategy<GroupCase> {
         .boxed()
 }
 
-fn far_strategy(_tier: Tier) -> BoxedStrategy<FarCase> {
+pub fn far_strategy(_tier: Tier) -> BoxedStrategy<FarCase> {
     (
         gen::mode4(),
         chunk_index(),
